@@ -1,0 +1,18 @@
+// SPDX-FileCopyrightText: 2020-present Open Networking Foundation <info@opennetworking.org>
+//
+// SPDX-License-Identifier: Apache-2.0
+
+//go:build verif
+// +build verif
+
+package connection
+
+import (
+	"github.com/onosproject/onos-config/pkg/southbound/gnmi"
+	"github.com/onosproject/onos-config/pkg/store/topo"
+)
+
+// NewReconcilerForVerif builds the connection reconciler for the external verification harness
+func NewReconcilerForVerif(topo topo.Store, conns gnmi.ConnManager) *Reconciler {
+	return &Reconciler{conns: conns, topo: topo}
+}
